@@ -9,14 +9,18 @@ additionally counts closure invocations; that count is a statement about the mod
 pure functions here, as in the model; a closure that receives `&mut T` (`and_also`, `and_do`) is a function
 returning the new value of the referent (and its result), exactly the model's convention — the rewrite of
 `if let PAT(value) = &mut self { .. g(value) .. } self` that this needs is documented in `tools/unit_parsed.py`.
-Not translated: `err_into` (`From::from`), the `ResultExt` impl — these stay tied by the complete enumeration
-of the combinator domain (engine `comb`).
+`err_into` is `self.map_err(From::from)`: the conversion between the error types is the parameter `fromE` (the
+model's `conv`).  `impl ResultExt for Result` (`err_into`, `and_also`, `and_do`) is the unit `resultext`
+(`Gen/ResultExtGen.lean`; std's `Result::map_err` is the contract `ParsedExt.resultMapErr`; `f(value)?` with
+identical error types is `if let Err(e) = f(value) { return Err(e) }`).  With these every combinator of
+`parser.rs` is translated.
 
 The same file justifies the hand-written combinator contracts the token units use
 (`CnfTokenExt.orGiveUp / orParse / mapErr …`): they are these functions under the "errors are thrown"
 encoding of `ParseError`.
 -/
 import Flussab.Gen.ParsedGen
+import Flussab.Gen.ResultExtGen
 
 namespace Flussab
 namespace TieParsed
@@ -90,6 +94,30 @@ theorem map_err_tied (p : ParsedR α ε) (f : ε → ε') :
 open ParsedR in
 theorem from_result_tied (r : Except ε α) :
     (Gen.Parsed.fromResult (β := β) (ε' := ε') r : ParsedR α ε).toModel = Parsed.ofResult r := by
+  cases r <;> rfl
+
+open ParsedR in
+theorem err_into_tied (p : ParsedR α ε) (conv : ε → ε') :
+    (Gen.Parsed.errInto (β := β) conv p : ParsedR α ε').toModel = (p.toModel.errInto conv).1 := by
+  rcases p with (_ | _) | _ <;> rfl
+
+theorem result_err_into_tied (r : Except ε α) (conv : ε → ε') :
+    Gen.ResultExt.errInto (β := β) conv r = (ResultExt.errInto r conv).1 := by
+  cases r <;> rfl
+
+theorem result_and_also_tied (r : Except ε α) (f : α → α × Except ε Unit) :
+    Gen.ResultExt.andAlso (β := β) (ε' := ε') r f = (ResultExt.andAlso r f).1 := by
+  rcases r with _ | v
+  · rfl
+  · show (match f v with
+        | (v', r0) => (match r0 with
+          | .error e => (Except.error e : Except ε α)
+          | _ => Except.ok v')) = _
+    simp only [ResultExt.andAlso]
+    rcases f v with ⟨v', _ | ⟨⟩⟩ <;> rfl
+
+theorem result_and_do_tied (r : Except ε α) (action : α → α) :
+    Gen.ResultExt.andDo (β := β) (ε' := ε') r action = (ResultExt.andDo r action).1 := by
   cases r <;> rfl
 
 /-- Non-vacuity: a fall-through input runs the alternative. -/
